@@ -73,10 +73,13 @@ class Ctx:
         segments = []     # loop-body path segments that ended at a back edge: (ep, func, head, state, entry label)
 
         callsnaps = []
+        widths = []       # every character whose display width is measured: (ep, func, char value)
 
         def hook(kind, st_, fr, bi, *a):
             if kind == 'backedge':
                 segments.append(dict(ep=cur[0], func=fr.func, head=bi, st=st_, entry=eng.entry_name))
+            elif kind == 'width':
+                widths.append(dict(ep=cur[0], func=fr.func if fr is not None else None, ch=a[0], st=st_.fork()))
             elif kind == 'call' and fr.func == 'screen::Screen::resize':
                 callee, args, t = a
                 callsnaps.append(dict(caller=fr.func, callee=callee, st=st_.fork(), args=list(args), entry=eng.entry_name))
@@ -89,7 +92,7 @@ class Ctx:
         eng.event_hook = None
         eng.hooks = []
         self._screen_run = dict(engine=eng, results=results, wall=time.time() - t0, entry_points=eps, events=events,
-                                segments=segments, callsnaps=callsnaps)
+                                segments=segments, callsnaps=callsnaps, widths=widths)
         return self._screen_run
 
     def yield_sites(self, prog=None):
